@@ -217,6 +217,10 @@ class Translator:
         except Untranslatable as ex:
             self.memo[key] = ex
             raise
+        except (RecursionError, KeyError, IndexError, TypeError, ValueError, AttributeError, AssertionError) as ex:
+            ex2 = Untranslatable("translator error %s: %s" % (type(ex).__name__, ex))
+            self.memo[key] = ex2
+            raise ex2
         finally:
             self.stack.pop()
         self.memo[key] = r
